@@ -158,6 +158,22 @@ fn op_status(line: &str, args: &[SExp]) -> CaseResult {
     let s = h.status_code();
     let result = format!("{:?} {}", s, s.is_success() as u8);
     let mut oracle = crate::registry::check_status(c, &format!("{:?}", s), s.is_success());
+    if oracle.is_none() {
+        // a header object that has been looked at before and is then given this status word (the field is public),
+        // and a clone of it: the decoding follows the word the header holds now
+        let mut reused = IppHeader::new(IppVersion(ver), if c == 0 { 0x0507 } else { 0 }, id);
+        let _ = reused.status_code();
+        let _ = reused.status_code().is_success();
+        reused.operation_or_status = c;
+        let rs = reused.status_code();
+        let cl = reused.clone();
+        let cs = cl.status_code();
+        if format!("{:?} {}", rs, rs.is_success() as u8) != result {
+            oracle = Some(format!("a header whose status word was changed to 0x{:04x} after it had been decoded once still decodes to {:?} (a fresh header gives {:?})", c, rs, s));
+        } else if format!("{:?}", cs) != format!("{:?}", s) {
+            oracle = Some(format!("the clone of a header with status 0x{:04x} decodes to {:?}, the header itself to {:?}", c, cs, s));
+        }
+    }
     if oracle.is_none() && args.len() > 1 {
         // the same word in a header that came out of the parser
         let mut wire = vec![];
